@@ -1269,19 +1269,38 @@ CORPUS = [
 # ----------------------------------------------------------------------------- history: generation after other generations
 
 HISTORY_SCRIPT = r'''
-import json, os, sys
+import json, os, sys, tempfile
 from dataclass_wizard.wizard_cli.schema import PyCodeGenerator
 jobs = json.loads(sys.stdin.read())
 out = []
+def construct(step):
+    # step: [text, experimental, force_strings, via]; a flag is true / false / null (passed as None) / "omit" (argument left out);
+    # via: "contents" (file_contents=) | "file" (file_name= of a file holding the text)
+    text, exp, force = step[:3]
+    via = step[3] if len(step) > 3 else 'contents'
+    kw = {}
+    if exp != 'omit':
+        kw['experimental'] = exp
+    if force != 'omit':
+        kw['force_strings'] = force
+    if via == 'file':
+        fd, path = tempfile.mkstemp(suffix='.json', prefix='c19h_')
+        with os.fdopen(fd, 'w', encoding='utf-8') as f:
+            f.write(text)
+        try:
+            return PyCodeGenerator(file_name=path, **kw).py_code
+        finally:
+            os.unlink(path)
+    return PyCodeGenerator(file_contents=text, **kw).py_code
 for seq in jobs:
     r, w = os.pipe()
     pid = os.fork()
     if pid == 0:
         os.close(r)
         res = []
-        for text, exp, force in seq:
+        for step in seq:
             try:
-                res.append(PyCodeGenerator(file_contents=text, experimental=exp, force_strings=force).py_code)
+                res.append(construct(step))
             except Exception as e:
                 res.append('<raised %s>' % type(e).__name__)
         with os.fdopen(w, 'w') as f:
@@ -1330,29 +1349,63 @@ def history_docs(rng, n):
     return pairs
 
 
-def run_history(ctx, pairs):
+def spell_flags(srng, flags):
+    """DIMENSION how a call states its flags.  `flags` = (experimental, force_strings) as booleans; a flag that is off can be passed as
+    False, passed as None (the declared default of the constructor argument) or left out of the call; a flag that is on is True.
+    Returns [experimental, force_strings] with values True / False / None / 'omit'."""
+    return [True if f else srng.choice([False, None, 'omit', 'omit']) for f in flags]
+
+
+def _step(text, spelled, via='contents'):
+    return [text, spelled[0], spelled[1], via]
+
+
+def run_history(ctx, pairs, srng=None):
     """generation of B in a pristine process (a forked child of a process that only imported the library) vs after
-    generating the unrelated A there"""
+    generating the unrelated A there.  Every call states its flags in some spelling (`spell_flags`: explicit booleans, None, argument
+    left out) and hands the document over as text or as a file: the generated text is a function of the document and of which flags
+    are ON -- not of how an off flag is spelled, and not of what an earlier call in the process switched on."""
     jobs = []
-    for a, fa, b, fb in pairs:
-        tb = [json.dumps(b, ensure_ascii=False), fb[0], fb[1]]
-        ta = [json.dumps(a, ensure_ascii=False), fa[0], fa[1]]
-        jobs.append([tb])
-        jobs.append([ta, tb])
-        jobs.append([ta, ta, tb, tb])
+    cases = []
+    for pair in pairs:
+        a, fa, b, fb = pair[:4]
+        extra = pair[4] if len(pair) > 4 else {}
+        sa = extra.get('a_spelled') or (spell_flags(srng, fa) if srng else list(fa))
+        sb = extra.get('b_spelled') or (spell_flags(srng, fb) if srng else list(fb))
+        va = extra.get('a_via') or (srng.choice(['contents', 'contents', 'file']) if srng else 'contents')
+        vb = extra.get('b_via') or (srng.choice(['contents', 'contents', 'file']) if srng else 'contents')
+        text_a, text_b = json.dumps(a, ensure_ascii=False), json.dumps(b, ensure_ascii=False)
+        ref = _step(text_b, list(fb))                    # explicit booleans, document as text
+        tb, ta = _step(text_b, sb, vb), _step(text_a, sa, va)
+        # a with every flag ON, stated explicitly, as the first call of the process: the strongest thing an earlier call can leave behind
+        on = _step(text_a, [True, True])
+        jobs += [[ref], [tb], [ta, tb], [ta, ta, tb, tb], [on, ta, tb], [tb, on, tb]]
+        cases.append({'a': a, 'a_flags': list(fa), 'b': b, 'b_flags': list(fb), 'a_spelled': sa, 'b_spelled': sb, 'a_via': va, 'b_via': vb})
     env = dict(os.environ, PYTHONPATH=str(C.REPO))
     p = subprocess.run(['/venv/bin/python', '-c', HISTORY_SCRIPT], input=json.dumps(jobs).encode(), capture_output=True,
                        env=env, timeout=600, cwd='/tmp')
     if p.returncode != 0:
         raise RuntimeError('history subprocess failed: ' + p.stderr.decode()[-800:])
     outs = json.loads(p.stdout.decode())
-    for n, (a, fa, b, fb) in enumerate(pairs):
-        fresh, after, after2 = outs[3 * n][0], outs[3 * n + 1][1], outs[3 * n + 2]
-        case = {'a': a, 'a_flags': list(fa), 'b': b, 'b_flags': list(fb)}
+    K = 6
+    for n, case in enumerate(cases):
+        o = outs[K * n:K * n + K]
+        fresh = o[0][0]
         ctx.seen('history', case)
-        if after != fresh or after2[2] != fresh or after2[3] != fresh:
-            ctx.fail('history', case, 'generation of document b differs between a pristine process and one that generated a before',
-                     detail=dict(fresh=fresh[:1500], after=after[:1500]))
+        if o[1][0] != fresh:
+            ctx.fail('history:spelling', case, 'in a pristine process, document b generated with its flags spelled '
+                     f'{case["b_spelled"]!r} (document handed over as {case["b_via"]}) differs from the generation with the explicit booleans '
+                     f'{case["b_flags"]!r}: {_first_diff(fresh, o[1][0])!r}'[:500], detail=dict(fresh=fresh[:1500], spelled=o[1][0][:1500]))
+            continue
+        got = {'after a': o[2][1], 'after a, a (first b)': o[3][2], 'after a, a, b (second b)': o[3][3],
+               'after a with every flag on, then a': o[4][2], 'first call of the process, before a with every flag on': o[5][0],
+               'after b, then a with every flag on': o[5][2]}
+        bad = [(k, v) for k, v in got.items() if v != fresh]
+        if bad:
+            k, v = bad[0]
+            ctx.fail('history', case, 'generation of document b differs between a pristine process and one that generated a before '
+                     f'({k}; flags of a spelled {case["a_spelled"]!r}, of b {case["b_spelled"]!r}): {_first_diff(fresh, v)!r}'[:600],
+                     detail=dict(fresh=fresh[:1500], after=v[:1500], differing=[k for k, _v in bad]))
 
 
 def replay_history(case):
@@ -1363,9 +1416,10 @@ def replay_history(case):
             pass
 
         def fail(self, kind, case, what, key=None, detail=None):
-            self.failures.append(dict(what=what, detail=detail))
+            self.failures.append(dict(kind=kind, what=what, detail=detail))
     x = X()
-    run_history(x, [(case['a'], tuple(case['a_flags']), case['b'], tuple(case['b_flags']))])
+    extra = {k: case[k] for k in ('a_spelled', 'b_spelled', 'a_via', 'b_via') if k in case}
+    run_history(x, [(case['a'], tuple(case['a_flags']), case['b'], tuple(case['b_flags']), extra)])
     return dict(violated=bool(x.failures), failures=x.failures)
 
 
@@ -1680,7 +1734,7 @@ def run(ctx: C.Ctx):
         ctx.agree('keywords', 'keyword.kwlist', sorted(keyword.kwlist), sorted(kw or []))
     if ctx.only is None:
         ctx.current = None
-        run_history(ctx, history_docs(rng, ctx.quick(16, 160)))
+        run_history(ctx, history_docs(rng, ctx.quick(16, 160)), random.Random(f'C19:{ctx.seed}:flag-spelling'))
         run_hashseed(ctx, sample, HASHSEEDS + [str(random.Random(f'C19:{ctx.seed}:hashseed').randrange(2 ** 32))])
         check_cli(ctx, CLI_INPUTS if ctx.tier != 'quick' else CLI_INPUTS[:1] + CLI_INPUTS[5:7] + CLI_INPUTS[10:12])
 
@@ -1688,7 +1742,7 @@ def run(ctx: C.Ctx):
 def replay(obj):
     C.setup_repo_path()
     kind, case = obj['kind'], obj['case']
-    if kind == 'history':
+    if kind.startswith('history'):
         return replay_history(case)
     if kind.startswith('hashseed'):
         return replay_hashseed(case)
